@@ -59,8 +59,8 @@ def run(res):
     cases = []
     n = 0
     for (sname, text), use_o, use_e, use_v, loc in itertools.product(SOURCES.items(), (False, True), (False, True), (False, True),
-                                                                     ("writable", "missing-dir", "is-a-directory")):
-        if loc != "writable" and not (use_o or use_e):
+                                                                     ("writable", "missing-dir", "is-a-directory", "overwrite")):
+        if loc in ("missing-dir", "is-a-directory") and not (use_o or use_e):
             continue
         n += 1
         d = os.path.join(work, "case%d" % n)
@@ -70,7 +70,7 @@ def run(res):
         open(src, "w").write(text)
         open(os.path.join(d, "src", "bystander.hex"), "w").write("keep me\n")
         args = ["-s", src]
-        target = {"writable": "out/%s", "missing-dir": "nodir/%s", "is-a-directory": "out/%s"}[loc]
+        target = {"writable": "out/%s", "missing-dir": "nodir/%s", "is-a-directory": "out/%s", "overwrite": "out/%s"}[loc]
         paths = {"code": os.path.join(d, "src", "prog.v1.hex"), "eeprom": os.path.join(d, "src", "prog.v1.eep.hex")}
         if use_o:
             paths["code"] = os.path.join(d, target % "flash.hex")
@@ -82,13 +82,18 @@ def run(res):
             for k, u in (("code", use_o), ("eeprom", use_e)):
                 if u:
                     os.makedirs(paths[k])
+        if loc == "overwrite":
+            # the outputs exist already and are LONGER than what will be written (an earlier, bigger build)
+            for k in ("code", "eeprom"):
+                open(paths[k], "w").write(":020000020000FC\r\n" + ":10000000" + "AB" * 16 + "00\r\n" * 1 + ":1000100000112233445566778899AABBCCDDEEFF00\r\n" * 40 + ":00000001FF\r\n")
         if use_v:
             args.append("-v")
         before = snapshot(d)
         p = subprocess.run([binary] + args, cwd=d, env=env, stdout=subprocess.PIPE, stderr=subprocess.STDOUT, text=True, timeout=60)
         after = snapshot(d)
         cases.append(dict(source=sname, args=[a.replace(d, "<dir>") for a in args], location=loc, exit=p.returncode, stdout=p.stdout[-400:],
-                          created={k: v for k, v in after.items() if k not in before}, changed=[k for k in before if after.get(k) != before[k]],
+                          created={k: v for k, v in after.items() if k not in before or (loc == "overwrite" and after[k] != before[k])},
+                          changed=[k for k in before if after.get(k) != before[k] and not (loc == "overwrite" and k in (os.path.relpath(paths["code"], d), os.path.relpath(paths["eeprom"], d)))],
                           paths={k: os.path.relpath(v, d) for k, v in paths.items()}, redirected=dict(code=use_o, eeprom=use_e), dir=d))
     # judge
     hexdir = os.path.join(work, "hexcmp")
@@ -103,7 +108,7 @@ def run(res):
             for k in ("code", "eeprom"):
                 img = bytes.fromhex(l[k])
                 if img:
-                    if c["location"] != "writable" and c["redirected"][k]:
+                    if c["location"] in ("missing-dir", "is-a-directory") and c["redirected"][k]:
                         unwritable = True
                     else:
                         want[c["paths"][k]] = img
